@@ -1,8 +1,10 @@
 package main
 
 import (
+	"bytes"
 	"context"
 	"crypto"
+	"crypto/ed25519"
 	"crypto/ecdsa"
 	"crypto/elliptic"
 	"crypto/rand"
@@ -732,4 +734,24 @@ func runC06(args []string) {
 		tw.emit(ev)
 	})
 	writeSummary(fl.str("summary", ""), obj{"events": tw.n, "signatures_made": nsigned, "samples": samples})
+}
+
+// installFixedKey makes EdDSA/K1 a deterministic key (fixed seed), so that
+// separate processes produce identical signatures (C19's reference run).
+func installFixedKey() {
+	seed := bytes.Repeat([]byte{0x5a}, ed25519.SeedSize)
+	priv := ed25519.NewKeyFromSeed(seed)
+	pk, err := jwk.FromRaw(priv)
+	if err != nil {
+		fatal("fixed key: %v", err)
+	}
+	pk.Set(jwk.AlgorithmKey, jwa.EdDSA)
+	pk.Set(jwk.KeyIDKey, "fixed")
+	uk, err := jwk.PublicKeyOf(pk)
+	if err != nil {
+		fatal("fixed key: %v", err)
+	}
+	set := jwk.NewSet()
+	set.AddKey(uk)
+	keyring["EdDSA/K1"] = &keyPair{alg: "EdDSA", sign: pk, verify: set, pub: uk}
 }
